@@ -24,12 +24,13 @@ def c03(chk, opts):
             if ev["wl"] == 2: stats["ties2"] += 1
             if ev["wl"] >= 3: stats["ties3plus"] += 1
             if ev["wl"] == n and n > 1: stats["all_tie"] += 1
-    if stats["ties3plus"] < 20 or stats["none"] < 20 or stats["all_tie"] < 20 or len(stats["players"]) < 10:
-        raise ToolError("vacuity: the recorded showdowns lack ties/collisions: %s" % stats)
     for i in bad:
         ev = json.loads(events[i - 1])
         chk.violation("showdown not allowed by the specification: %s" % events[i - 1][:400],
                       {"op": "showdown", "board": ev["board"], "players": ev["players"]}, {"gen": ["showdown"], "events": [ev]})
+    # vacuity guard: tie statistics come from recorded results, so they are only meaningful when TLC accepted every event
+    if not chk.violations and (stats["ties3plus"] < 20 or stats["none"] < 20 or stats["all_tie"] < 20 or len(stats["players"]) < 10):
+        raise ToolError("vacuity: the recorded showdowns lack ties/collisions: %s" % stats)
     for i in (0, 4, 7, 21):
         chk.sample(events[i])
     if opts.get("selftest"):
